@@ -253,6 +253,20 @@ func runC19(r *vf.Runner) {
 			r.Case(c, func(t *vf.T) { runC19case(t, c) })
 		}
 	}
+	// wide: many concurrent runs recompute a discarded result of many shards together, without
+	// any delay in the user functions: every evaluator keeps meeting tasks that another run
+	// started or completed a moment ago
+	for _, conf := range []sessConf{localP4, {Kind: "local", P: 16}} {
+		for k := 0; k < 2*rep; k++ {
+			base := Spec{Nodes: []PNode{{Op: "readerfunc", Shards: 64, Rows: 128, Out: []string{"int", "int64"}, Salt: 4, Mod: 9, Chunks: []int{20}}, {Op: "map", In: []int{0}, Out: []string{"int", "int64"}, Src: []int{0, 1}, Salt: 1}}}
+			ok1 := Spec{Nodes: []PNode{{Op: "arg", Arg: 0}, {Op: "map", In: []int{0}, Out: []string{"int", "int64"}, Src: []int{0, 1}, Salt: 5}}}
+			c := c19case{Conf: conf, Base: base, Derived: []Spec{ok1, ok1, ok1, ok1, ok1, ok1, ok1, ok1}, DiscardBefore: true, Repeat: k}
+			r.Case(c, func(t *vf.T) {
+				runC19case(t, c)
+				t.Count("wide_shared_recomputations", 1)
+			})
+		}
+	}
 	for i := 0; i < nl+nb; i++ {
 		conf := localP4
 		if i >= nl {
